@@ -1308,7 +1308,7 @@ def run(ck, pid="C09"):
         "a copy that returns an error (HDF5 cannot hold a typed node without dimensions; unresolvable link with follow_links) is outside the property",
         "cgnsdiff is judged on pairs whose links resolve in both files (it exits with an error otherwise); -c / -i / -t are outside the default options",
         "ADF free-space / chunk tables and all of libhdf5 are tied by this differential run only",
-        "axioms: none for 29 theorems; C09_diff_tol_nan_refuted (outside the default options) uses Flocq binary64 and inherits "
+        "axioms: none for 33 theorems; C09_diff_tol_nan_refuted (outside the default options) uses Flocq binary64 and inherits "
         "ClassicalDedekindReals.sig_forall_dec, ClassicalDedekindReals.sig_not_dec, "
         "FunctionalExtensionality.functional_extensionality_dep, Classical_Prop.classic"]
     ck.cov["rule"] = ("seeded worlds of 1-3 files in one back end (random trees of 6-110 nodes, deep chains, wide parents, all ten types, payloads around "
